@@ -249,11 +249,11 @@ func (q *Queue) Replace(elem *queue.Elem) (replaced bool, err error) {
 	}()
 	id := elem.ID()
 	eb := elem.Encode()
-	stop := q.current - 1
-	if stop < 0 {
-		stop = 0
+	if q.current == 0 {
+		// nothing has been handed out (or replayed) yet: `lrange 0 -1`/`lrange 0 0` would look at unread entries
+		return false, nil
 	}
-	rs, err := redigo.Values(conn.Do("lrange", getKey(q.clientID), 0, stop))
+	rs, err := redigo.Values(conn.Do("lrange", getKey(q.clientID), 0, q.current-1))
 	if err != nil {
 		return false, err
 	}
@@ -291,6 +291,11 @@ func (q *Queue) Read(pids []packets.PacketID) (elems []*queue.Elem, err error) {
 	}
 	if q.closed {
 		return nil, queue.ErrClosed
+	}
+	if len(pids) == 0 {
+		q.notifier.NotifyMsgQueueAdded(0)
+		q.notifier.NotifyInflightAdded(0)
+		return nil, nil
 	}
 	rs, err := redigo.Values(conn.Do("lrange", getKey(q.clientID), q.current, q.current+len(pids)-1))
 	if err != nil {
@@ -363,11 +368,15 @@ func (q *Queue) ReadInflight(maxSize uint) (elems []*queue.Elem, err error) {
 	defer q.cond.L.Unlock()
 	conn := q.pool.Get()
 	defer conn.Close()
-	rs, err := redigo.Values(conn.Do("lrange", getKey(q.clientID), q.current, q.current+int(maxSize)-1))
-	if len(rs) == 0 {
+	if q.len == 0 || q.current >= q.len {
 		q.inflightDrained = true
-		return
+		return nil, nil
 	}
+	if maxSize == 0 {
+		// `lrange cur cur-1` would be the whole list for cur == 0
+		return nil, nil
+	}
+	rs, err := redigo.Values(conn.Do("lrange", getKey(q.clientID), q.current, q.current+int(maxSize)-1))
 	if err != nil {
 		return nil, wrapError(err)
 	}
